@@ -640,6 +640,12 @@ class TopLevelVisitor(ast.NodeVisitor):
                 # assuming that the docstr is actually terminated with this
                 # kind of triple quote, then the start line is at this position
                 cand_start_ = stop - nlines - 1
+                if cand_start_ < 0:
+                    # The value holds more newline characters than there are
+                    # source lines above its end (escape sequences in a
+                    # non-raw literal): it cannot be located by counting.
+                    start = stop - 1
+                    continue
                 startline = sourcelines[cand_start_]
 
                 # The startline should also begin with the same triple quote
